@@ -4,13 +4,15 @@ from ..frontend import AnalysisBroken
 from .. import effects
 from .C09 import dead_blocks
 from . import C04
+from .. import region
+import itertools
 
 
 def run(ctx, rep):
     P = ctx.prog
     rep.explanation = ('Decided: plan selection structure of block_is_enabled (unused never, bad always, full all, new = justsynced, bad plan = nothing else, auto = time limit + tie count); '
                        'marking/refresh typestate (shared with C04); scrub has no data or parity write effect; option validation. Percentages, ages and eventual coverage are arithmetic over run-time values: not decided.')
-    rep.rule('R-C15-1', 'block_is_enabled: unused positions never selected; bad always selected before any plan test; plan constants map to the documented returns', 5)
+    rep.rule('R-C15-1', 'block_is_enabled: unused positions never selected; bad always selected before any plan test; plan constants map to the documented returns', 3)
     rep.rule('R-C15-2', 'marking typestate (R-C04-4) and unsynced rule (R-C04-3u)', 4)
     rep.rule('R-C15-3', 'scrub reaches no DATA / PARITY effect; parity opened read-only', 2)
     rep.rule('R-C15-4', 'plan/olderthan validation; times sorted before limits are derived', 2)
@@ -62,18 +64,7 @@ def run(ctx, rep):
     badp = [k for k, v in cases.items() if v == '0']
     newp = [k for k, v in cases.items() if v and 'info_get_justsynced' in v]
     rep.check(len(full) == 1 and len(badp) == 1 and len(newp) == 1, 'R-C15-1', 'plan switch: one plan returns 1 (full), one returns 0 (bad), one returns info_get_justsynced (new)', f.file, str(cases), function='block_is_enabled', construct='plan switch')
-    # the plan constants are the ones main passes for -p full / bad / new
-    # auto part: blocktime > timelimit -> 0 ; tie count
-    conds = [f.expr(f.term(b).ops[0]) for b in range(len(f.blocks)) if f.term(b).op == 'br' and len(f.term(b).ops) == 3]
-    rep.check(any('blocktime>plan->timelimit' in c.replace(' ', '') for c in conds) and any('plan->countlast>=plan->lastlimit' in c.replace(' ', '') for c in conds) and any('blocktime==plan->timelimit' in c.replace(' ', '') for c in conds),
-              'R-C15-1', 'auto plan: rejects blocks newer than the time limit and counts ties against lastlimit', f.file, str([c for c in conds if 'plan->' in c]), function='block_is_enabled', construct='auto limits')
-    tl = None
-    for b in range(len(f.blocks)):
-        t = f.term(b)
-        if t.op == 'br' and len(t.ops) == 3 and 'blocktime>plan->timelimit' in f.expr(t.ops[0]).replace(' ', ''):
-            zs = [x for x in st if x.block == t.ops[2][1]]
-            tl = bool(zs) and f.const_of(zs[0].ops[0]) == 0
-    rep.check(bool(tl), 'R-C15-1', 'auto plan: too-new block returns 0', f.file, '', function='block_is_enabled', construct='auto too new')
+    # the time-limit / tie-count part of the auto plan is decided semantically by R-C15-5 (no expression-shape rule)
 
     # R-C15-2 shared with C04
     L = StripeLoop(P, 'state_scrub_process')
@@ -126,3 +117,78 @@ def run(ctx, rep):
     tls = [i for i in s.all_insts() if i.op == 'store' and s.expr(i.ops[1]).endswith('ps.timelimit') and s.const_of(i.ops[0]) is None]
     qs = list(s.calls('qsort'))
     rep.check(len(qs) == 1 and all(s.dominates(qs[0], t) for t in tls), 'R-C15-4', 'times sorted before limits are derived', s.file, '', function='state_scrub', construct='sort first')
+
+    quota_rule(P, rep, s, f, 5 if ctx.tier == 'quick' else 7)
+
+
+def quota_rule(P, rep, s, be, nmax=5, rid='R-C15-5'):
+    """R-C15-5: the limits state_scrub derives from the sorted times, fed to block_is_enabled, select exactly the
+    quota: the `countlimit` oldest stripes not newer than the age limit, ties cut by count.  The derivation touches
+    the times only through comparisons, so a three-value ordered domain covers every ordering for a given length;
+    lengths 1..5 (1..7 in the thorough tier), every quota 0..n+1 and every position of the age limit are enumerated (finite-domain
+    interpretation of the IR region between the sort and the end of the derivation; nothing is executed)."""
+    rep.rule(rid, 'quota derivation + block_is_enabled select exactly min(quota, count) oldest stripes not newer than the age limit (all orderings of <=5 times over a 3-value domain, every quota, every age limit)', 1000)
+    qs = list(s.calls('qsort'))
+    if len(qs) != 1:
+        raise AnalysisBroken('state_scrub: qsort anchor not found')
+    lay = P.distructs.get('snapraid_plan')
+    if not lay:
+        raise AnalysisBroken('struct snapraid_plan not found')
+    off = {m['name']: m['off'] for m in lay['members']}
+    for k in ('plan', 'timelimit', 'lastlimit', 'countlast'):
+        if k not in off:
+            raise AnalysisBroken('struct snapraid_plan has no member %s' % k)
+    mk = P.fn('info_make')
+    times = (16, 32, 48)        # multiples of 8: the low bits of an info word are flags
+    bad = None
+    n_runs = 0
+    for n in range(1, nmax + 1):
+        for T in itertools.combinations_with_replacement(times, n):
+            infos = None
+            for c in range(0, n + 2):
+                for r in (8, 16, 24, 32, 40, 48):
+                    cur = [0]
+                    R = region.Region(P, extern=lambda ins, args: (0,) if ins.callee == 'log_tag' else ((cur[0],) if ins.callee == 'info_get' else None))
+                    R.set_local(s, 'countlimit', c)
+                    R.set_local(s, 'count', n)
+                    R.set_local(s, 'recentlimit', r)
+                    R.set_local(s, 'i', 0)
+                    R.set_local(s, 'timemap', R.array('timemap', list(T), 8))
+                    ps = R.local(s, 'ps')
+                    R.mem[(ps.reg, off['plan'])] = (1 << 32) - 1      # SCRUB_AUTO
+                    R.mem[(ps.reg, off['countlast'])] = 0
+                    if 'state' in off:
+                        R.mem[(ps.reg, off['state'])] = region.P_(('state',), 0)
+                    try:
+                        R.run(s, qs[0].block, stop=lambda ins: ins.callee != 'log_tag', start_idx=qs[0].idx + 1)
+                        raise AnalysisBroken('state_scrub: the limit derivation region returned')
+                    except region.Stop:
+                        pass
+                    except region.OutOfBounds as e:
+                        bad = bad or ('times %s quota %d age limit %d: %s' % (list(T), c, r, e))
+                        continue
+                    tl = R.mem.get((ps.reg, off['timelimit'])); ll = R.mem.get((ps.reg, off['lastlimit']))
+                    if tl is None or ll is None:
+                        raise AnalysisBroken('state_scrub: the region after the sort does not derive timelimit/lastlimit')
+                    n_runs += 1
+                    want = min(c, n)
+                    while want > 0 and T[want - 1] > r:
+                        want -= 1
+                    if infos is None:
+                        infos = {t: region.Region(P).run(mk, 0, [t, 0, 0, 0]) for t in times}
+                    for order in (list(T), list(reversed(T))):
+                        R.mem[(ps.reg, off['countlast'])] = 0
+                        sel = []
+                        for pos, t in enumerate(order):
+                            cur[0] = infos[t]
+                            v = R.run(be, 0, [ps, pos], frame=R.nframe + 1)
+                            R.nframe += 1
+                            if v:
+                                sel.append(t)
+                        if sorted(sel) != list(T[:want]) and bad is None:
+                            bad = 'times %s, quota %d, age limit %d (derived time limit %s, tie quota %s): %d stripes selected %s, the plan allows exactly the %d oldest %s' % (
+                                list(order), c, r, tl, ll, len(sel), sorted(sel), want, list(T[:want]))
+                    rep.ok(rid, 'times %s quota %d age %d' % (list(T), c, r)) if bad is None else None
+    if bad:
+        rep.fail(rid, 'state_scrub quota derivation', s.file, bad, function='state_scrub', construct='quota derivation')
+    rep.extra['quota_configurations'] = n_runs
